@@ -155,6 +155,9 @@ func parseDocument(parser *Parser) (*ast.Document, error) {
 		}
 		nodes = append(nodes, node)
 	}
+	if len(nodes) == 0 {
+		return nil, unexpected(parser, lexer.Token{})
+	}
 	return ast.NewDocument(&ast.Document{
 		Loc:         loc(parser, start),
 		Definitions: nodes,
